@@ -8,6 +8,7 @@ from ..effects import analyse
 from ..guards import sites
 from ..layout import Env, MiniArray, eval_expr, prod
 from ..registry import describe, rule
+from .. import tmatch as tm
 from ..util import calls_named, peel, returns_of
 from . import shared
 
@@ -203,13 +204,15 @@ def layout(rc):
     c = rets[-1].value if rets and isinstance(rets[-1].value, ast.Call) else None
     if c is None or call_name(c) != "TabularCPD":
         raise AnalysisError("TabularCPD.copy: no constructor call")
+    from ..util import resolve as _resolve
     d = {n.targets[0].id: n.value for n in walk_no_nested(cp.node) if isinstance(n, ast.Assign) and isinstance(n.targets[0], ast.Name)}
     args = [norm(a) for a in c.args]
-    ev = norm(d.get("evidence", ast.Constant(value=None)))
-    evc = norm(d.get("evidence_card", ast.Constant(value=None)))
-    rc.ob(f"copy: TabularCPD({', '.join(args)}) with evidence = {ev}, evidence_card = {evc}")
-    ok = args[:2] == ["self.variable", "self.variable_card"] and "self.get_values()" in args[2] and "self.variables[1:]" in ev and "self.cardinality[1:]" in evc \
-        and args[3:5] == ["evidence", "evidence_card"]
+    ev_e = _resolve(c.args[3], d) if len(c.args) > 3 else kwarg(c, "evidence")
+    evc_e = _resolve(c.args[4], d) if len(c.args) > 4 else kwarg(c, "evidence_card")
+    ev = norm(ev_e) if ev_e is not None else "None"
+    evc = norm(evc_e) if evc_e is not None else "None"
+    rc.ob(f"copy: TabularCPD({', '.join(args[:3])}, ...) with evidence = {ev}, evidence_card = {evc}")
+    ok = args[:2] == ["self.variable", "self.variable_card"] and "self.get_values()" in args[2] and "self.variables[1:]" in ev and "self.cardinality[1:]" in evc
     if not ok:
         rc.fail(cp, c, "copy must rebuild the CPD from its own 2-D table with evidence = variables[1:] and evidence_card = cardinality[1:]", construct="copy args")
     tf = cls.methods["to_factor"]
@@ -298,20 +301,33 @@ def validate(rc):
         t, pol = s.conds[-1]
         txt = norm(t, 300)
         k = None
-        if "is None" in txt and pol:
+        if not pol:
+            continue
+        if tm.is_(t, "_c is None") is not None:
             k = "cpd present"
-        elif "set(evidence) != set(parents)" in txt.replace("  ", " ") and pol or (isinstance(t, ast.Compare) and isinstance(t.ops[0], ast.NotEq) and "evidence" in txt and "parents" in txt and "set(" in txt and pol):
+        elif tm.is_(t, "set(_ev) != set(_pa)") is not None:
+            bb = tm.is_(t, "set(_ev) != set(_pa)")
+            src = {tm.find(f.node, "_x = _c.get_evidence()", {"_x": bb["_ev"]})[1] is not None: "ev", tm.find(f.node, "_x = _c.get_evidence()", {"_x": bb["_pa"]})[1] is not None: "ev2"}
+            has_ev = any(tm.find(f.node, "_x = _c.get_evidence()", {"_x": bb[v]})[1] is not None for v in ("_ev", "_pa"))
+            has_pa = any(tm.find(f.node, t2, {"_x": bb[v]})[1] is not None for v in ("_ev", "_pa") for t2 in ("_x = self.get_parents(_n)", "_x = self.predecessors(_n)", "_x = list(self.predecessors(_n))"))
             k = "evidence == parents"
-        elif "state_names.keys()" in txt and "variables" in txt and pol:
+            if not (has_ev and has_pa):
+                rc.fail(f, t, "check_model must compare the CPD's evidence with the node's parents in the graph", construct="evidence/parents source")
+        elif tm.is_(t, "len(set(_c.variables) - set(_c.state_names.keys())) > 0") is not None or tm.is_(t, "set(_c.variables) - set(_c.state_names.keys())") is not None \
+                or tm.is_(t, "len(set(_c.variables) - set(_c.state_names)) > 0") is not None:
             k = "state names defined"
-        elif "is_valid_cpd()" in txt and isinstance(t, ast.UnaryOp) and pol:
+        elif tm.is_(t, "not _c.is_valid_cpd()") is not None:
             k = "columns sum to one"
-        elif "cardinality" in txt and isinstance(t, ast.Compare) and isinstance(t.ops[0], ast.NotEq) and pol:
+        elif tm.is_(t, "_pc.cardinality[__I] != _c.cardinality[__J]") is not None or tm.is_(t, "_c.cardinality[__J] != _pc.cardinality[__I]") is not None:
             k = "parent cardinality"
             # index agreement: enumerate(cpd.variables[1:]) <-> cardinality[1 + index]
-            if "cardinality[0]" not in txt or ("1 + index" not in txt and "index + 1" not in txt):
+            bb = tm.is_(t, "_pc.cardinality[0] != _c.cardinality[1 + _i]") or tm.is_(t, "_pc.cardinality[0] != _c.cardinality[_i + 1]")
+            lp_ok = bb is not None and any(tm.is_(lp_.iter, "enumerate(_c.variables[1:])", {"_c": bb["_c"]}) is not None and isinstance(lp_.target, ast.Tuple) and dotted(lp_.target.elts[0]) == bb["_i"]
+                                           and tm.has(lp_, "_pc = self.get_cpds(_n)", {"_pc": bb["_pc"], "_n": dotted(lp_.target.elts[1])})
+                                           for lp_ in ast.walk(f.node) if isinstance(lp_, ast.For))
+            if not lp_ok:
                 rc.fail(f, t, "the parent's own cardinality (position 0 of its CPD) must be compared with position 1+index of the child's CPD", construct="cardinality index")
-        elif "state_names[" in txt and isinstance(t, ast.Compare) and isinstance(t.ops[0], ast.NotEq) and pol:
+        elif tm.is_(t, "_pc.state_names[_n] != _c.state_names[_n]") is not None or tm.is_(t, "_c.state_names[_n] != _pc.state_names[_n]") is not None:
             k = "parent state names"
         if k:
             kinds[k] = s
@@ -319,10 +335,6 @@ def validate(rc):
     for need in ("cpd present", "evidence == parents", "state names defined", "columns sum to one", "parent cardinality", "parent state names"):
         if need not in kinds:
             rc.fail(f, f.node, f"check_model no longer rejects a model that violates: {need}", construct=f"missing check: {need}")
-    # evidence / parents are the CPD's evidence and the graph's parents of the node
-    d = {n.targets[0].id: norm(n.value) for n in walk_no_nested(f.node) if isinstance(n, ast.Assign) and isinstance(n.targets[0], ast.Name)}
-    if "get_evidence()" not in d.get("evidence", "") or "get_parents(node)" not in d.get("parents", "").replace("predecessors", "get_parents"):
-        rc.fail(f, f.node, "check_model must compare the CPD's evidence with the node's parents in the graph", construct="evidence/parents source")
     # return True only at the very end
     rets = sites(f.node, lambda n: isinstance(n, ast.Return))
     for s in rets:
